@@ -216,6 +216,16 @@ func (r *run) guard(stage string, f func()) (ok bool) {
 	defer func() {
 		if p := recover(); p != nil {
 			st := string(debug.Stack())
+			if stage == "eval" { // risor.Eval does everything: name the stage after what was executing
+				switch {
+				case strings.Contains(st, risorPrefix+"compiler."):
+					stage = "compile"
+				case strings.Contains(st, risorPrefix+"parser.") || strings.Contains(st, risorPrefix+"lexer."):
+					stage = "parse"
+				case strings.Contains(st, risorPrefix+"vm."):
+					stage = "run"
+				}
+			}
 			r.o.Panics = append(r.o.Panics, panicObs{Stage: stage, Site: panicSite(st), Value: truncStr(fmt.Sprint(p), 300), Stack: truncStr(st, 6000)})
 			ok = false
 		}
